@@ -119,9 +119,19 @@ pub fn run_vcd(args: &[&str]) -> String {
     }
 }
 
-/// `serdej <path>`: the JSON of the hierarchy and of the first signals (shape check against the generated schema)
+/// `serdej <path>` / `serdej - <hdrhex> <bodyhex>`: the JSON of the hierarchy and of the first signals (shape check
+/// against the generated schema and against the model's `de` / `ser`)
 pub fn run_json(args: &[&str]) -> String {
-    let mut wave = simple::read(args[0]).unwrap();
+    let mut wave = if args[0] == "-" {
+        let mut file = bytes_of_hex(args[1]);
+        file.extend_from_slice(&bytes_of_hex(args[2]));
+        match load_guarded(|| simple::read_from_reader(std::io::Cursor::new(file))) {
+            Some(w) => w,
+            None => return "LOADFAIL".to_string(),
+        }
+    } else {
+        simple::read(args[0]).unwrap()
+    };
     let h = serde_json::to_string(wave.hierarchy()).unwrap();
     let n = wave.hierarchy().num_unique_signals();
     let ids: Vec<SignalRef> = (0..n)
@@ -132,4 +142,27 @@ pub fn run_json(args: &[&str]) -> String {
     wave.load_signals(&ids);
     let sigs: Vec<String> = ids.iter().map(|i| serde_json::to_string(wave.get_signal(*i).unwrap()).unwrap()).collect();
     format!("{{\"hierarchy\":{},\"signals\":[{}]}}", h, sigs.join(","))
+}
+
+/// `serdede <Hierarchy|Signal> <jsonhex>`: hands a document to the derived Deserialize; prints `reject`, or
+/// `accept-same` / `accept-differs` according to whether serialising the object again gives the same document
+/// (compared as JSON values: the iteration order of a HashMap is not part of the document's meaning)
+pub fn run_de(args: &[&str]) -> String {
+    let text = match String::from_utf8(bytes_of_hex(args[1])) {
+        Ok(t) => t,
+        Err(_) => return "BADCASE".to_string(),
+    };
+    let again: Option<String> = match args[0] {
+        "Hierarchy" => serde_json::from_str::<Hierarchy>(&text).ok().map(|h| serde_json::to_string(&h).unwrap()),
+        "Signal" => serde_json::from_str::<Signal>(&text).ok().map(|s| serde_json::to_string(&s).unwrap()),
+        _ => return "BADCASE".to_string(),
+    };
+    match again {
+        None => "reject".to_string(),
+        Some(j) => {
+            let a: serde_json::Value = serde_json::from_str(&text).unwrap();
+            let b: serde_json::Value = serde_json::from_str(&j).unwrap();
+            if a == b { "accept-same".to_string() } else { "accept-differs".to_string() }
+        }
+    }
 }
